@@ -2,15 +2,17 @@ CONSTANTS
   TableUnits <- NoTable
   Units = {"la","lb","ta","nd","pc","K","degC","delta_degC"}
   ConvUnits = {"la","lb","ta","nd","pc","K","degC","delta_degC","C","statC"}
-  UKinds0 = {"q","a","az","bs","ba","z","za","lq","ts","tm","nz","tq"}
-  UKinds1 = {"q","a","az","bs","ba","bl","z","za","lq","lqm","ts","tm","nz","tq"}
+  UKinds0 = {"q","a","az","bs","ba","z","za","lq","ts","tm","nz","tq","lzq","lbq","lqb","tlqm","lqm3"}
+  UKinds1 = {"q","a","az","bs","ba","bl","z","za","lq","lqm","ts","tm","nz","tq","lzq","lbq","lqb","tlqm","lqm3"}
   UfOps = {"add","subtract","less","equal","maximum","hypot","divmod","multiply"}
   Forms = {"call","outer","operator","iop","out","at","reduce_initial"}
   ArrFns = {"concatenate","where","clip","copyto_where"}
-  Fams = {"ufunc","arrfn","setitem","conv","unitop"}
+  Fams = {"ufunc","arrfn","setitem","conv","unitop","hist"}
   SpUnits = {"la","K"}
+  Hists = {"modify","readd","tworeg"}
+  HUnits = {"la","lb","ta"}
 INIT Init
-NEXT Next
+NEXT NextAll
 INVARIANT Export
 INVARIANT Uncovered
 CHECK_DEADLOCK FALSE
